@@ -765,7 +765,7 @@ impl<'t, 'a> Gen<'t, 'a> {
                 let compound = self.t.chance(128);
                 let init = if compound {
                     self.frame().cond += 1;
-                    let e = self.expr(elem, d - 1);
+                    let e = if self.prof.objects && self.t.chance(70) { self.method_call(elem, d) } else { self.expr(elem, d - 1) };
                     self.frame().cond -= 1;
                     e
                 } else {
